@@ -36,6 +36,16 @@ CHECKS = {
         "Exotic kinds are concrete representatives. User converters/validators that raise are outside the statement.",
         design="4/C03",
     ),
+    "C04": dict(
+        text="For each program and option set (exclude_none / exclude_defaults / exclude_unset / aliaser / check_type / "
+        "fall_back_on_any / additional_properties), every well-typed value within bounds (leaves symbolic; Optional, Union "
+        "alternative, Undefined, enum member, lengths, presence of defaulted arguments by forks) is serialized by the compiled "
+        "method tree; the output must consist of JSON classes only and equal, keys in order, the image computed by an "
+        "independent reference interpreter of the documented omission and aliasing rules; serialize(v) == serialize(type(v), v).",
+        note="Any-typed positions and undeclared TypedDict keys hold concrete representatives; AnyMethod's factory argument is "
+        "wrapped so that proxy classes are looked up as the Python type they stand for.",
+        design="4/C04",
+    ),
 }
 
 NOT_YET = "check not built yet at this commit (work in progress, see DESIGN.md section 4)"
